@@ -1,5 +1,3 @@
-//go:build wip_c10
-
 package kit
 
 // Integer facts of the reflect-surface interpreter.  Terms are trackable
@@ -31,7 +29,7 @@ type IBound struct {
 	LenOf  string // e == len(LenOf's slice)
 }
 
-func i64(v int64) *int64 { return &v }
+func rI64(v int64) *int64 { return &v }
 
 // term canonicalises an integer-valued (or any) pure path expression.
 func (ri *RInterp) term(e ast.Expr) string {
@@ -59,7 +57,7 @@ func (ri *RInterp) lenKey(x ast.Expr) string {
 	return ""
 }
 
-func getInt(s S, k string) *int64 {
+func rGetInt(s S, k string) *int64 {
 	v := s.Get(k)
 	if v == "" {
 		return nil
@@ -71,24 +69,24 @@ func getInt(s S, k string) *int64 {
 	return &n
 }
 
-func setInt(s S, k string, v int64) S { return s.Set(k, strconv.FormatInt(v, 10)) }
+func rSetInt(s S, k string, v int64) S { return s.Set(k, strconv.FormatInt(v, 10)) }
 
 func (ri *RInterp) termFacts(t string, s S) IBound {
-	b := IBound{Lb: getInt(s, "lb:"+t), Ub: getInt(s, "ub:"+t), Rg: s.Get("rg:" + t)}
+	b := IBound{Lb: rGetInt(s, "lb:"+t), Ub: rGetInt(s, "ub:"+t), Rg: s.Get("rg:" + t)}
 	if b.Rg != "" && (b.Lb == nil || *b.Lb < 0) {
-		b.Lb = i64(0)
+		b.Lb = rI64(0)
 	}
 	for _, k := range s.Keys() {
 		if strings.HasPrefix(k, "rl:"+t+"|") {
 			if b.Rl == nil {
 				b.Rl = map[string]int64{}
 			}
-			b.Rl[k[len("rl:"+t+"|"):]] = *getInt(s, k)
+			b.Rl[k[len("rl:"+t+"|"):]] = *rGetInt(s, k)
 		} else if strings.HasPrefix(k, "rc:"+t+"|") {
 			if b.Rc == nil {
 				b.Rc = map[string]int64{}
 			}
-			b.Rc[k[len("rc:"+t+"|"):]] = *getInt(s, k)
+			b.Rc[k[len("rc:"+t+"|"):]] = *rGetInt(s, k)
 		}
 	}
 	return b
@@ -96,14 +94,14 @@ func (ri *RInterp) termFacts(t string, s S) IBound {
 
 // addOverflows reports whether a+b leaves int64 (the analysed int is at most
 // 64 bits; 32-bit builds only make bounds tighter).
-func addOK(a, b int64) bool {
+func rAddOK(a, b int64) bool {
 	if b > 0 {
 		return a <= math.MaxInt64-b
 	}
 	return a >= math.MinInt64-b
 }
 
-func shift(b IBound, c int64) IBound {
+func rShift(b IBound, c int64) IBound {
 	// b + c, evaluated by Go with wrap-around: a lower bound survives an
 	// addition only when an upper bound excludes wrapping, and vice versa.
 	hasUp := b.Ub != nil || len(b.Rl) > 0 || len(b.Rc) > 0 || b.Rg != "" || b.LenOf != ""
@@ -117,11 +115,11 @@ func shift(b IBound, c int64) IBound {
 		// bounded, which it is not — nothing is known
 		return out
 	}
-	if b.Lb != nil && addOK(*b.Lb, c) {
-		out.Lb = i64(*b.Lb + c)
+	if b.Lb != nil && rAddOK(*b.Lb, c) {
+		out.Lb = rI64(*b.Lb + c)
 	}
-	if b.Ub != nil && addOK(*b.Ub, c) {
-		out.Ub = i64(*b.Ub + c)
+	if b.Ub != nil && rAddOK(*b.Ub, c) {
+		out.Ub = rI64(*b.Ub + c)
 	}
 	for e, d := range b.Rl {
 		if out.Rl == nil {
@@ -163,7 +161,7 @@ func (ri *RInterp) split(e ast.Expr) (string, int64) {
 func (ri *RInterp) bounds(e ast.Expr, s S, ents map[ast.Expr]string) IBound {
 	e = ast.Unparen(e)
 	if c, ok := ri.constOf(e); ok {
-		return IBound{Lb: i64(c), Ub: i64(c)}
+		return IBound{Lb: rI64(c), Ub: rI64(c)}
 	}
 	if t := ri.term(e); t != "" {
 		return ri.termFacts(t, s)
@@ -176,22 +174,22 @@ func (ri *RInterp) bounds(e ast.Expr, s S, ents map[ast.Expr]string) IBound {
 				if x.Op == token.SUB {
 					c = -c
 				}
-				return shift(ri.bounds(x.X, s, ents), c)
+				return rShift(ri.bounds(x.X, s, ents), c)
 			}
 		}
 	case *ast.CallExpr:
 		switch RCallName(info, x) {
 		case "Value.Len":
 			X := ri.entOf(x.Fun.(*ast.SelectorExpr).X, s, ents)
-			return IBound{Lb: i64(0), Rl: map[string]int64{X: 0}, Rc: map[string]int64{X: 0}, LenOf: s.Get("mk:" + X)}
+			return IBound{Lb: rI64(0), Rl: map[string]int64{X: 0}, Rc: map[string]int64{X: 0}, LenOf: s.Get("mk:" + X)}
 		case "Value.Cap":
 			X := ri.entOf(x.Fun.(*ast.SelectorExpr).X, s, ents)
-			return IBound{Lb: i64(0), Rc: map[string]int64{X: 0}}
+			return IBound{Lb: rI64(0), Rc: map[string]int64{X: 0}}
 		case "Type.Len", "Value.NumField", "Type.NumField":
-			return IBound{Lb: i64(0), Ub: i64(math.MaxInt32)}
+			return IBound{Lb: rI64(0), Ub: rI64(math.MaxInt32)}
 		}
 		if b, ok := Callee(info, x).(*types.Builtin); ok && (b.Name() == "len" || b.Name() == "cap") && len(x.Args) == 1 {
-			out := IBound{Lb: i64(0), Ub: i64(math.MaxInt64 - 1)}
+			out := IBound{Lb: rI64(0), Ub: rI64(math.MaxInt64 - 1)}
 			if b.Name() == "len" {
 				out.LenOf = ri.lenKey(x.Args[0])
 			}
@@ -199,16 +197,16 @@ func (ri *RInterp) bounds(e ast.Expr, s S, ents map[ast.Expr]string) IBound {
 		}
 	case *ast.IndexExpr:
 		if v := ri.localVar(x.X); v != nil && s.Get("ae:"+VarID(v)) == "T" {
-			return IBound{Lb: i64(0)}
+			return IBound{Lb: rI64(0)}
 		}
 	}
 	return IBound{}
 }
 
-// setLb raises the lower bound of a term and resolves pending element facts.
-func setLb(s S, t string, v int64) S {
-	if cur := getInt(s, "lb:"+t); cur == nil || *cur < v {
-		s = setInt(s, "lb:"+t, v)
+// rSetLb raises the lower bound of a term and resolves pending element facts.
+func rSetLb(s S, t string, v int64) S {
+	if cur := rGetInt(s, "lb:"+t); cur == nil || *cur < v {
+		s = rSetInt(s, "lb:"+t, v)
 	}
 	if v >= 0 {
 		for _, k := range s.Keys() {
@@ -220,9 +218,9 @@ func setLb(s S, t string, v int64) S {
 	return s
 }
 
-func setMin(s S, k string, v int64) S {
-	if cur := getInt(s, k); cur == nil || *cur > v {
-		s = setInt(s, k, v)
+func rSetMin(s S, k string, v int64) S {
+	if cur := rGetInt(s, k); cur == nil || *cur > v {
+		s = rSetInt(s, k, v)
 	}
 	return s
 }
@@ -233,7 +231,7 @@ func (ri *RInterp) applyLE(s S, A, B ast.Expr, c int64, ents map[ast.Expr]string
 	bA, bB := ri.bounds(A, s, ents), ri.bounds(B, s, ents)
 	// contradiction on constants only (keeps the engine from exploring
 	// impossible loop exits)
-	if bA.Lb != nil && bB.Ub != nil && addOK(*bB.Ub, c) && *bA.Lb > *bB.Ub+c {
+	if bA.Lb != nil && bB.Ub != nil && rAddOK(*bB.Ub, c) && *bA.Lb > *bB.Ub+c {
 		return s, false
 	}
 	tA, oA := ri.split(A)
@@ -244,20 +242,20 @@ func (ri *RInterp) applyLE(s S, A, B ast.Expr, c int64, ents map[ast.Expr]string
 		}
 		f := ri.termFacts(t, s)
 		if o > 0 {
-			return f.Ub != nil && addOK(*f.Ub, o) || len(f.Rl) > 0 || len(f.Rc) > 0 || f.Rg != ""
+			return f.Ub != nil && rAddOK(*f.Ub, o) || len(f.Rl) > 0 || len(f.Rc) > 0 || f.Rg != ""
 		}
-		return f.Lb != nil && addOK(*f.Lb, o)
+		return f.Lb != nil && rAddOK(*f.Lb, o)
 	}
 	if tA != "" && noWrap(tA, oA) {
 		k := c - oA // tA <= B + k
-		if bB.Ub != nil && addOK(*bB.Ub, k) {
-			s = setMin(s, "ub:"+tA, *bB.Ub+k)
+		if bB.Ub != nil && rAddOK(*bB.Ub, k) {
+			s = rSetMin(s, "ub:"+tA, *bB.Ub+k)
 		}
-		for _, e := range sortedKeys(bB.Rl) {
-			s = setMin(s, "rl:"+tA+"|"+e, bB.Rl[e]+k)
+		for _, e := range rSortedKeys(bB.Rl) {
+			s = rSetMin(s, "rl:"+tA+"|"+e, bB.Rl[e]+k)
 		}
-		for _, e := range sortedKeys(bB.Rc) {
-			s = setMin(s, "rc:"+tA+"|"+e, bB.Rc[e]+k)
+		for _, e := range rSortedKeys(bB.Rc) {
+			s = rSetMin(s, "rc:"+tA+"|"+e, bB.Rc[e]+k)
 		}
 		if bB.LenOf != "" && k <= -1 {
 			if f := ri.termFacts(tA, s); f.Lb != nil && *f.Lb >= 0 {
@@ -273,8 +271,8 @@ func (ri *RInterp) applyLE(s S, A, B ast.Expr, c int64, ents map[ast.Expr]string
 	if tB != "" && noWrap(tB, oB) && bA.Lb != nil {
 		// A <= tB + oB + c  →  tB >= A - oB - c
 		d := -oB - c
-		if addOK(*bA.Lb, d) {
-			s = setLb(s, tB, *bA.Lb+d)
+		if rAddOK(*bA.Lb, d) {
+			s = rSetLb(s, tB, *bA.Lb+d)
 			// a lower bound may complete a pending range fact
 		}
 	}
@@ -302,7 +300,7 @@ func (ri *RInterp) cmpRefine(s S, A, B ast.Expr, op token.Token, ents map[ast.Ex
 	return s, true
 }
 
-func negOp(op token.Token) token.Token {
+func rNegOp(op token.Token) token.Token {
 	switch op {
 	case token.LSS:
 		return token.GEQ
@@ -327,7 +325,7 @@ func (ri *RInterp) killTerm(s S, id string) S {
 	idx := "[" + id + "]"
 	lk := "len:" + id
 	var rebind []string
-	s = filterKeys(s, func(tag, a, b string) bool {
+	s = rFilterKeys(s, func(tag, a, b string) bool {
 		switch tag {
 		case "lb", "ub":
 			return covers(a)
@@ -361,12 +359,13 @@ func (ri *RInterp) killTerm(s S, id string) S {
 // (x++ / x = x - 1 in a loop), widened so that the state space stays finite.
 func (ri *RInterp) selfShift(s S, t string, off int64) IBound {
 	old := ri.termFacts(t, s)
-	nb := shift(old, off)
+	nb := rShift(old, off)
 	if off > 0 {
 		nb.Lb = old.Lb // still >= the old bound when the addition cannot wrap
 		if nb.Rl == nil && nb.Rc == nil && nb.Ub == nil {
 			nb.Lb = nil
 		}
+		nb.Ub = nil // widened: the loop condition re-establishes it
 	} else {
 		if old.Lb != nil { // cannot wrap: upper facts survive unchanged (weaker)
 			nb.Ub, nb.Rl, nb.Rc = old.Ub, old.Rl, old.Rc
@@ -410,16 +409,16 @@ func (ri *RInterp) assignInt(s S, lhs ast.Expr, rhs ast.Expr, ents map[ast.Expr]
 func (ri *RInterp) store(s S, t string, nb IBound) S {
 	s = ri.killTerm(s, t)
 	if nb.Lb != nil {
-		s = setLb(s, t, *nb.Lb)
+		s = rSetLb(s, t, *nb.Lb)
 	}
 	if nb.Ub != nil {
-		s = setInt(s, "ub:"+t, *nb.Ub)
+		s = rSetInt(s, "ub:"+t, *nb.Ub)
 	}
-	for _, e := range sortedKeys(nb.Rl) {
-		s = setInt(s, "rl:"+t+"|"+e, nb.Rl[e])
+	for _, e := range rSortedKeys(nb.Rl) {
+		s = rSetInt(s, "rl:"+t+"|"+e, nb.Rl[e])
 	}
-	for _, e := range sortedKeys(nb.Rc) {
-		s = setInt(s, "rc:"+t+"|"+e, nb.Rc[e])
+	for _, e := range rSortedKeys(nb.Rc) {
+		s = rSetInt(s, "rc:"+t+"|"+e, nb.Rc[e])
 	}
 	if nb.Rg != "" {
 		s = s.Set("rg:"+t, nb.Rg)
